@@ -261,7 +261,7 @@ PROPS["C18"] = dict(
     level_note="Only the client can be paused (the prompt is a client feature). Nothing is asserted about the cadence of keep-alives. The final-ack / MD5 phase has no keep-alive in the protocol: there the peer sees pause + latency of silence.",
     rule="non-trivial = the pause point was reached and at least one pause/resume cycle was performed; distinct by SHA-1 of the case JSON",
     tests=[dict(name="TestVF_C18", rapid=False, env=dict(VERIF_CASE_LIMIT=300),
-                quick=dict(shards=32, timeout=1800, env=dict(VERIF_C18_STRIDE=24)),
+                quick=dict(shards=32, timeout=1800, env=dict(VERIF_C18_STRIDE=30)),
                 thorough=dict(shards=32, timeout=20000, env=dict(VERIF_C18_STRIDE=2, VERIF_C18_LONG=1)))],
 )
 
